@@ -17,6 +17,9 @@ canonical spelling, so a rule sees the same tree whichever one the author chose:
   D7  torch.Tensor.F(x, ..)              -> like D1
   D8  a @ b                              -> torch.matmul(a, b)
   D9  dict(m) / dict(m, **n) / dict(a=x) -> {**m} / {**m, **n} / {'a': x}
+  D10 torch.where(logical_not(m) | ~m, x, y) -> torch.where(m, y, x)
+  D11 x.dim() / x.ndim / x.ndimension()  -> len(x.shape) ; x.mT -> x.transpose(-1, -2)
+  D12 X.m(a, q=b) -> X.m(a, b) when q is the next positional parameter of every definition of method m in the package
 
 Only spelling is touched: every rewrite is an identity of the PyTorch / Python
 semantics for tensor receivers.  Receivers that are imported modules, `self`
@@ -93,6 +96,9 @@ class Canon(ast.NodeTransformer):
 
     def _hit(self, new, old):
         self.count += 1
+        for a in ("_def_id", "_iter_of", "_iter_src", "_phi", "_tuple_elt"):
+            if hasattr(old, a) and not hasattr(new, a):
+                setattr(new, a, getattr(old, a))
         return ast.copy_location(new, old)
 
     # ------------------------------------------------------------ calls
@@ -115,6 +121,17 @@ class Canon(ast.NodeTransformer):
             recv = node.args[0]
             new = ast.Call(func=ast.copy_location(ast.Attribute(value=recv, attr=tf, ctx=ast.Load()), node), args=node.args[1:], keywords=node.keywords)
             return self._hit(new, node)
+        # D10 where(not m, x, y) -> where(m, y, x)
+        if tf == "where" and len(node.args) == 3 and not node.keywords and not has_star:
+            m = node.args[0]
+            inner = None
+            if isinstance(m, ast.Call) and _torch_fn(m) == "logical_not" and len(m.args) == 1 and not m.keywords:
+                inner = m.args[0]
+            elif isinstance(m, ast.UnaryOp) and isinstance(m.op, ast.Invert):
+                inner = m.operand
+            if inner is not None:
+                node.args = [inner, node.args[2], node.args[1]]
+                self.count += 1
         # D6 tuple -> list argument of sequence combinators
         if tf in SEQ_ARG and node.args and isinstance(node.args[0], ast.Tuple):
             node.args[0] = ast.copy_location(ast.List(elts=node.args[0].elts, ctx=ast.Load()), node.args[0])
@@ -130,6 +147,9 @@ class Canon(ast.NodeTransformer):
                 recv_is_module = True
             if not recv_is_module:
                 m = f.attr
+                if m in ("dim", "ndimension") and not node.args and not node.keywords:
+                    shp = ast.copy_location(ast.Attribute(value=f.value, attr="shape", ctx=ast.Load()), node)
+                    return self._hit(ast.Call(func=ast.copy_location(ast.Name(id="len", ctx=ast.Load()), node), args=[shp], keywords=[]), node)
                 if m in FUNC_FORM:
                     new = ast.Call(func=_torch_attr(m, node), args=[f.value] + node.args, keywords=node.keywords)
                     return self._hit(new, node)
@@ -159,6 +179,16 @@ class Canon(ast.NodeTransformer):
             if isinstance(b, ast.Constant) and not isinstance(a, ast.Constant):
                 node.args = [b, a]
                 self.count += 1
+        return node
+
+    def visit_Attribute(self, node: ast.Attribute):
+        self.generic_visit(node)
+        if node.attr == "ndim" and isinstance(node.ctx, ast.Load):
+            shp = ast.copy_location(ast.Attribute(value=node.value, attr="shape", ctx=ast.Load()), node)
+            return self._hit(ast.Call(func=ast.copy_location(ast.Name(id="len", ctx=ast.Load()), node), args=[shp], keywords=[]), node)
+        if node.attr == "mT" and isinstance(node.ctx, ast.Load):
+            return self._hit(ast.Call(func=ast.copy_location(ast.Attribute(value=node.value, attr="transpose", ctx=ast.Load()), node),
+                                      args=[ast.UnaryOp(op=ast.USub(), operand=ast.Constant(value=1)), ast.UnaryOp(op=ast.USub(), operand=ast.Constant(value=2))], keywords=[]), node)
         return node
 
     # ------------------------------------------------------------ D5 guarded counts
@@ -231,3 +261,82 @@ def canonicalise(tree: ast.Module) -> int:
     c.visit(tree)
     ast.fix_missing_locations(tree)
     return c.count
+
+
+_POST = None
+
+
+def recanon(expr: ast.AST) -> ast.AST:
+    """canonical form of an expression that was assembled by substitution (patterns can form across former temporaries)"""
+    global _POST
+    if _POST is None:
+        _POST = Canon(set())
+    out = _POST.visit(expr)
+    ast.fix_missing_locations(out)
+    return out
+
+
+# ---------------------------------------------------------------- D12 argument passing form of repository methods
+def api_signatures(trees) -> dict:
+    """method name -> positional parameter names (without self/cls) shared by every definition of that name in the package
+    (the common prefix when definitions differ in length); names defined with conflicting orders are left out"""
+    sigs = {}
+    for tree in trees:
+        for cls in ast.walk(tree):
+            if not isinstance(cls, ast.ClassDef):
+                continue
+            for fn in cls.body:
+                if not isinstance(fn, (ast.FunctionDef, ast.AsyncFunctionDef)) or (fn.name.startswith("__") and fn.name != "__call__"):
+                    continue
+                a = fn.args
+                names = [x.arg for x in a.posonlyargs + a.args]
+                deco = {ast.unparse(d) for d in fn.decorator_list}
+                if "staticmethod" not in deco and names:
+                    names = names[1:]
+                sigs.setdefault(fn.name, []).append(names)
+    out = {}
+    for name, defs in sigs.items():
+        n = min(len(d) for d in defs)
+        pre = []
+        for i in range(n):
+            col = {d[i] for d in defs}
+            if len(col) != 1:
+                break
+            pre.append(defs[0][i])
+        if pre:
+            out[name] = pre
+    return out
+
+
+class ArgForm(ast.NodeTransformer):
+    """X.m(a, q=b) -> X.m(a, b) when q is m's next positional parameter: positional wherever there is no gap"""
+
+    def __init__(self, sigs):
+        self.sigs = sigs
+        self.count = 0
+
+    def visit_Call(self, node: ast.Call):
+        self.generic_visit(node)
+        f = node.func
+        if not isinstance(f, ast.Attribute) or f.attr not in self.sigs or any(isinstance(a, ast.Starred) for a in node.args):
+            return node
+        sig = self.sigs[f.attr]
+        kws = {k.arg: k for k in node.keywords if k.arg is not None}
+        i = len(node.args)
+        moved = False
+        while i < len(sig) and sig[i] in kws:
+            node.args.append(kws[sig[i]].value)
+            node.keywords.remove(kws[sig[i]])
+            i += 1
+            moved = True
+        if moved:
+            self.count += 1
+        return node
+
+
+def argument_form(trees) -> int:
+    sigs = api_signatures(trees)
+    t = ArgForm(sigs)
+    for tree in trees:
+        t.visit(tree)
+    return t.count
